@@ -21,7 +21,7 @@ def neg(a):
     if isc(a): return z3.RealVal(str(-a.as_fraction()))
     return -a
 class S:
-    __array_priority__ = 1000
+    pass
     pass
     def __init__(s, n, d=ONE): s.n = n; s.d = d
     @staticmethod
